@@ -79,6 +79,27 @@ def _kw_copies(fi, kw):
     return out
 
 
+def _pull_helpers(idx, fi):
+    """{name: {positions}} of the functions defined inside `fi` (or at the top of its module) that read `.result` of a
+    positional parameter on every path from their entry to any exit, a handler's included (the read is the first thing evaluated)"""
+    out = {}
+    for f in idx.funcs:
+        if not (f.parent is fi or (f.parent is None and f.module is fi.module and getattr(f, "cls", None) is None)):
+            continue
+        if f is fi or f.node.args.vararg or f.node.args.kwarg:
+            continue
+        try:
+            c = K.cfg_of(idx, f)
+        except Exception:
+            continue
+        for i, a in enumerate(f.node.args.args):
+            lo = set(c.find("load", lambda n: n.meta.get("attr") == "result" and isinstance(n.ast.value, ast.Name) and n.ast.value.id == a.arg))
+            rebound = [n for n in own_nodes(f.node) if isinstance(n, ast.Name) and isinstance(n.ctx, ast.Store) and n.id == a.arg]
+            if lo and not rebound and c.must_pass_through(c.entry, c.exit, lo):
+                out.setdefault(f.name, set()).add(i)
+    return out
+
+
 def pulls(idx, cls, fi, p, kind, depth=0):
     """Does `fi` (the effective execute of `cls`) take `.result` of input p on every path to its normal exit?"""
     cfg = K.cfg_of(idx, fi)
@@ -112,6 +133,10 @@ def pulls(idx, cls, fi, p, kind, depth=0):
             if not isinstance(tgt, ast.Name):
                 continue
             loads = set(cfg.find("load", lambda n: n.meta.get("attr") == "result" and isinstance(n.ast.value, ast.Name) and n.ast.value.id == tgt.id))
+            # the element handed to a local helper that takes `.result` of that parameter on every path through it
+            ph = _pull_helpers(idx, fi)
+            loads |= set(cfg.find("call", lambda n: isinstance(n.ast.func, ast.Name) and n.ast.func.id in ph and not n.ast.keywords
+                                  and any(isinstance(a_, ast.Name) and a_.id == tgt.id and i_ in ph[n.ast.func.id] for i_, a_ in enumerate(n.ast.args))))
             firsts = [m for m, lab in head.succ if lab == "loop"]
             if loads and all(cfg.must_pass_through(b, head, loads) for b in firsts):
                 nodes.add(head)
